@@ -376,6 +376,21 @@ impl Drop for WaitForGuard {
     }
 }
 
+/// Verification hook (compiled only with `--cfg rsactor_verif`): read-only snapshot of the
+/// wait-for graph as (waiting actor id, awaited actor id) pairs.
+#[cfg(all(rsactor_verif, feature = "deadlock-detection"))]
+#[doc(hidden)]
+pub fn __verif_wait_for_edges() -> Vec<(u64, u64)> {
+    match wait_for_graph().lock() {
+        Ok(graph) => graph.iter().map(|(k, v)| (*k, v.0.id)).collect(),
+        Err(poisoned) => poisoned
+            .into_inner()
+            .iter()
+            .map(|(k, v)| (*k, v.0.id))
+            .collect(),
+    }
+}
+
 /// Check if there is a path from `from` to `to` in the wait-for graph.
 /// Self-ask (caller == callee) is checked by the caller before invoking this function,
 /// so this only handles cycles of 2+ hops.
